@@ -24,7 +24,8 @@ from pypika_tortoise.terms import Parameterizer
 from pypika_tortoise.dialects import MSSQLQuery, MySQLQuery, OracleQuery, PostgreSQLQuery, SQLLiteQuery
 
 LEVEL = "proof"
-THEOREMS = ["C10_embedded_is_standalone", "C10_position_flags_do_not_reach_the_clauses", "C10_setop_embedded_is_standalone", "C10_nonvacuous"]
+THEOREMS = ["C10_embedded_is_standalone", "C10_position_flags_do_not_reach_the_clauses", "C10_setop_embedded_is_standalone", "C10_nonvacuous",
+            "C10_returning_nonvacuous"]
 HEADER = "From PT Require Import Base.Str Base.Codes.\nOpen Scope N_scope.\n"
 
 
@@ -58,6 +59,14 @@ def handmade_inner(qc, k):
     if k == 7:     # CTE with a column list whose terms carry an alias / a table (the WITH clause is a clause of the inner query too)
         return (qc.with_(qc.from_(u).select(u.a, u.b), "c2", T.Field("a").as_("ca"), T.Field("b", table=u)).from_(P.AliasedQuery("c2"))
                 .select("a").where(T.Field("b") == 7))
+    if k in (8, 9, 10) and qc is PostgreSQLQuery:     # data-modifying statements with RETURNING (embeddable as a CTE body)
+        if k == 8:
+            return qc.from_(t).where(t.b == 15).delete().returning(t.id, t.c.as_("rc"))
+        if k == 9:
+            return qc.into(t).columns("id", "note").insert(16, "x").returning(t.id, "note")
+        return qc.update(t).set(t.a, 17).where(t.b == 18).returning(t.id, t.a.as_("ra"))
+    if k == 11:    # row locking + pagination at the tail
+        return qc.from_(t).select(t.a).where(t.b == 19).orderby(t.a).limit(2).for_update()
     return None
 
 
@@ -91,8 +100,16 @@ def positions(qc):
             return None      # (a set operation as CTE body makes the library print WITH RECURSIVE: outside the embedded text, not judged here)
         return qc.with_(i, "cte0").from_(P.AliasedQuery("cte0")).select("*")
 
-    def ins(i):
-        return qc.into(o).columns("a").from_(i).select("*") if False else None
+    def cte_joined(i):      # the outer statement qualifies its own columns (a join): nothing of that reaches the body
+        if not isinstance(i, P.queries.QueryBuilder):
+            return None
+        c0 = P.AliasedQuery("cte0")
+        return qc.with_(i, "cte0").from_(c0).join(o).on(o.a == T.Field("a", table=c0)).select(o.a, 31)
+
+    def cte_two_from(i):
+        if not isinstance(i, P.queries.QueryBuilder):
+            return None
+        return qc.with_(i, "cte0").from_(P.AliasedQuery("cte0")).from_(o).select(o.a, 32)
 
     def ncols(i):
         sel = getattr(i, "__dict__", {}).get("_selects")
@@ -113,7 +130,7 @@ def positions(qc):
     def func_arg(i):
         return qc.from_(o).select(fn.Coalesce(i, 30))
 
-    return {"from": frm, "join": join, "in": in_, "in-under-not": notin_nested, "comparison": cmp_, "select-item": sel, "cte-body": cte,
+    return {"from": frm, "join": join, "in": in_, "in-under-not": notin_nested, "comparison": cmp_, "select-item": sel, "cte-body": cte, "cte-body-joined-outer": cte_joined, "cte-body-two-from-outer": cte_two_from,
             "set-operand": setop, "set-base": setop_base, "function-arg": func_arg}
 
 
@@ -143,6 +160,8 @@ def relational(label, qc, mk_inner, pos_name, pos):
     for param in (False, True):
         try:
             inner_alone = mk_inner()
+            if inner_alone is None:
+                return []
             n = ncols_of(inner_alone)
             marker_alone = marker(qc, n)
             outer_a, outer_m = pos(mk_inner()), pos(marker(qc, n))
@@ -187,7 +206,7 @@ def cases(run, rng):
     REL_SEEN[0] = 0
     for qc in QUERY_CLASSES:
         P_ = positions(qc)
-        for k in range(8):
+        for k in range(12):
             for pn, pf in P_.items():
                 corr = relational("hand:%d" % k, qc, lambda k=k, qc=qc: handmade_inner(qc, k), pn, pf)
                 if corr:
@@ -227,8 +246,8 @@ def check(run: core.Run):
     stmtprop.run_statement_property(
         run, prop="C10", propfile="Props/C10.v", module="Props.C10", theorems=THEOREMS, header=HEADER, cases=cases(run, rng),
         what="the embedding statement", extra_violations=LazyViolations(), extra_cov=lazy_cov,
-        rule="for each inner query (8 hand-made ones with aliased terms in WHERE / GROUP BY / HAVING / ORDER BY / ON, nested, with CTE, with values in several "
-             "clauses; random selects and set operations) x 10 embedding positions (FROM, JOIN, IN, IN under NOT in a mixed AND/OR group, comparison operand, select-list "
+        rule="for each inner query (12 hand-made ones - data-modifying statements with RETURNING and row-locked selects included - with aliased terms in WHERE / GROUP BY / HAVING / ORDER BY / ON, nested, with CTE, with values in several "
+             "clauses; random selects and set operations) x 12 embedding positions (CTE body under a joining or two-source outer statement, FROM, JOIN, IN, IN under NOT in a mixed AND/OR group, comparison operand, select-list "
              "item, CTE body, set-operation operand and base, function argument) x 6 classes x {inline, parameterised}: the outer statement's text must equal the text "
              "of the same outer statement around a marker query, with the marker's stand-alone text replaced by the inner query's stand-alone text (placeholders renumbered by "
              "the values preceding the position). Exact string equality between implementation outputs, evaluated in the harness; the Coq case file carries the "
